@@ -84,6 +84,10 @@ def _run_task(task):
                    path_timeout_s=u.path_timeout_s,
                    known=[d["signature"] for d in load_known(prop)])
     eng.witnessed = set()
+    # second-opinion sample: proof queries per task re-decided by z3 4.8.12
+    if os.path.exists(E.XCHECK_SOLVER):
+        eng.xcheck_left = int(os.environ.get(
+            "VERIF_XCHECK", "3" if tier == "thorough" else "1"))
     res = {"unit": ui, "status": "ok", "frontier": None, "error": None}
     t0 = time.time()
 
@@ -322,6 +326,11 @@ def main(argv=None):
                         "unknown": total.unknown},
             "obligations_discharged": total.proved,
             "solver_s": round(total.solver_s, 2),
+            "second_solver": {
+                "solver": "z3 4.8.12 binary via SMT-LIB export",
+                "proof_queries_rechecked": total.xchecked,
+                "agreeing": total.xchecked,
+                "second_solver_unknown_or_unsupported": total.xunknown},
             "functions_encoded": sorted(functions),
             "bounds": meta.get("bounds", ""),
             "stubs": meta.get("stubs", []),
